@@ -40,6 +40,7 @@ type PRunAns struct {
 	Pool   int    `json:"pool"`
 	Queue  int    `json:"queue"`
 	Hang   bool   `json:"hang"`
+	Quiet  bool   `json:"quiet"`
 	Events string `json:"events"`
 	NEv    int    `json:"nev"`
 }
@@ -86,10 +87,14 @@ func promiseRunOne(req *PRunReq) (*PRunAns, bool) {
 	} else {
 		// let tasks nobody waited for run to completion: every dequeue is closed by the
 		// worker's `unl` (suspended) or `resu` (finished)
-		deadline := time.Now().Add(400 * time.Millisecond)
+		deadline := time.Now().Add(600 * time.Millisecond)
 		for {
 			log = vm.VerifSnapshot()
-			if promiseQuiet(log) || time.Now().After(deadline) {
+			if promiseQuiet(log) {
+				res.Quiet = true
+				break
+			}
+			if time.Now().After(deadline) {
 				break
 			}
 			time.Sleep(time.Millisecond)
@@ -102,18 +107,29 @@ func promiseRunOne(req *PRunReq) (*PRunAns, bool) {
 }
 
 func promiseQuiet(log []vm.VerifEvent) bool {
+	// quiet = every task that was started and every external promise has been settled and its
+	// settler has left Resolve/Reject, and every dequeue is closed by the worker's `unl`/`resu`
 	open := map[uint64]int{}
+	pending := map[uint64]bool{}
 	for _, e := range log {
 		switch e.Kind {
+		case "add":
+			pending[e.Task] = true
+		case "newx":
+			pending[e.Promise] = true
 		case "deq":
 			open[e.G]++
 		case "unl":
 			open[e.G]--
 		case "resu":
+			delete(pending, e.Promise)
 			if open[e.G] > 0 {
 				open[e.G]--
 			}
 		}
+	}
+	if len(pending) != 0 {
+		return false
 	}
 	for _, n := range open {
 		if n != 0 {
